@@ -117,8 +117,8 @@ pub fn bop_strategy() -> impl Strategy<Value = BOp> {
             .prop_map(|(a, m)| BOp::CondModel(a, m)),
         3 => (idx_strategy(), any::<u8>()).prop_map(|(a, v)| BOp::Exists(a, v)),
         3 => (idx_strategy(), any::<u8>(), idx_strategy()).prop_map(|(a, v, g)| BOp::Compose(a, v, g)),
-        1 => proptest::collection::vec(idx_strategy(), 0..5).prop_map(BOp::AndLst),
-        1 => proptest::collection::vec(idx_strategy(), 0..5).prop_map(BOp::OrLst),
+        1 => prop_oneof![3 => proptest::collection::vec(idx_strategy(), 0..5), 1 => proptest::collection::vec(idx_strategy(), 5..13)].prop_map(BOp::AndLst),
+        1 => prop_oneof![3 => proptest::collection::vec(idx_strategy(), 0..5), 1 => proptest::collection::vec(idx_strategy(), 5..13)].prop_map(BOp::OrLst),
         1 => any::<bool>().prop_map(BOp::NewVar),
     ]
 }
@@ -171,7 +171,7 @@ impl<'a, T: IteTable<'a, BddPtr<'a>> + Default> BddRun<'a, T> {
             pool,
             n: n0,
             new_vars: 0,
-            max_new_vars: 2,
+            max_new_vars: NV,
             label_fault: None,
         }
     }
@@ -188,6 +188,7 @@ impl<'a, T: IteTable<'a, BddPtr<'a>> + Default> BddRun<'a, T> {
     pub fn step(&mut self, op: &BOp) -> Option<StepOut> {
         let b = self.b;
         let (ptr, tt, args): (BddPtr<'a>, Tt, Vec<usize>) = match op {
+            BOp::Lit(..) | BOp::Cond(..) | BOp::Exists(..) | BOp::Compose(..) if self.n == 0 => return None,
             BOp::Lit(v, p) => {
                 let v = self.v(*v);
                 (b.var(VarLabel::new_usize(v), *p), Tt::lit(v, *p), vec![])
@@ -298,13 +299,18 @@ impl<'a, T: IteTable<'a, BddPtr<'a>> + Default> BddRun<'a, T> {
                 }
                 let (lbl, ptr) = b.new_var(*p);
                 let seq: Vec<usize> = b.order().in_order_iter().map(|x| x.value_usize()).collect();
-                if lbl.value_usize() != self.n || seq.last() != Some(&self.n) || seq.len() != self.n + 1 {
-                    // documented contract: a fresh label, placed at the end of the current order
+                let mut sorted = seq.clone();
+                sorted.sort_unstable();
+                if lbl.value_usize() != self.n || sorted != (0..=self.n).collect::<Vec<_>>() {
+                    // a variable added at run time must be a new one: the next unused label (VarOrder::new_last's
+                    // doc test), with the order still listing every variable once. Where it sits in the order is
+                    // not this property's concern (C14 checks the extension of the order).
                     self.label_fault = Some(format!(
-                        "new_var on a builder with {} variables returned label {} and the order is now {:?} (expected the fresh label {} appended at the end)",
+                        "new_var on a builder with {} variables returned label {} and the order is now {:?} (expected the fresh label {} and an order listing 0..={} once each)",
                         self.n,
                         lbl.value(),
                         seq,
+                        self.n,
                         self.n
                     ));
                 }
